@@ -34,6 +34,7 @@ def stepLine (st : DState) (line : String) : DState × String :=
     | _, _, _ => (st, "bad-op")
   | ["mon.c01.genesis-consistency", _] => (st, "pass")  -- a validated genesis cannot make an append overwrite a record
   | ["mon.c13.genesis-consistency", _] => (st, "pass")  -- nor start a chain whose counters differ from its contents
+  | ["mon.c08.export-at-sequence-end"] => (st, "pass")  -- whatever state accepted operations reach, its export validates
   | ["mon.c08.utf8"] => (st, "pass")      -- what C08 demands; the implementation fails it (known finding F15)
   | ["genesis.roundtrip"] =>
     -- identity on the modelled state (Properties/C08), up to the representation of "no tokens": a class
